@@ -41,6 +41,12 @@ def scenarios(tier, seed=0):
         if c["off"] and c["win"] == "w3":
             continue
         yield {"kind": "config", "config": c}
+    # (b2) crop keyword options under words with and without drought (early senescence, stress adjustments)
+    for opt in A.CROPOPT:
+        for word in ("dry", "mix"):
+            for ck in (("maize.2",) if tier == "quick" else ("maize.2", "cotton.2", "potato.2")):
+                c = A._b(crop=ck, word=word, win="w2", soil="SandyLoam", iwc="Pct50", cropopt=opt)
+                yield {"kind": "config", "config": c}
     # (c) thermal crops re-derive their calendar from the weather matrix at every season start; deep-rooted crops deepen the profile
     names = ["MaizeGDD", "AlfalfaGDD", "WheatGDD"] if tier == "quick" else A.thermal_crop_names()
     for name in names:
